@@ -117,7 +117,7 @@ func writeManifest(root string) {
 	}
 }
 
-var hookCommits = []string{"a713816", "3772002", "7d61760"}
+var hookCommits = []string{"a713816", "3772002", "7d61760", "d33e9eb"}
 
 var engineKinds = map[string]string{
 	"wiresim": "byte streams and transports under fragmentation, short I/O and injected failure (rsync, framing, handshakes, logging, stream writers)",
